@@ -43,7 +43,10 @@ encoder.  Still correspondence only (no theorem): Python's `int()` model `pyInt`
 variants (not in the code any more — kept as documentation of the four repaired defects; each has a
 `…_asis_counterexample`), and the `blake2b` hash (an injectivity hypothesis in `lease_v2_decode_encode`).
 
-The decoders of the code before the four `fixes/C38-*.diff` repairs (`Netstring.split pyLen`,
+As built: /repo contains the four repairs `fixes/C38-*.diff` (base32 trailing bits, netstring length,
+base62 canonical check, UEB strict unpack), so the real decoders are the checked ones (`strictLen`, slack 0,
+`a2bStrict`, `Ueb.strict`) and the driver compares those.  In the model files and the driver, "the code as it
+is" / mode `p` means the code *before* these repairs.  Those pre-repair decoders (`Netstring.split pyLen`,
 `Base32.a2b 1`, `Base62.a2b`, `Ueb.unpack asIs`) are modelled too; for each leniency a
 `…_asis_counterexample` shows by evaluation the malformed input it accepted, next to the fact that the
 checked decoder rejects the same input.
@@ -219,7 +222,7 @@ theorem base32_exact (cs os : Bytes) : Base32.a2b 0 cs = some os ↔ cs = Base32
 -- wrong length class, non-alphabet character, non-zero padding bits: all rejected
 example : Base32.a2b 0 [97] = none ∧ Base32.a2b 0 [97, 65] = none ∧ Base32.a2b 0 [97, 98] = none := by decide
 
-/-- The table `s8` as the code builds it (`4-(bits%5)`, one bit short) lets `a2b(b"ac")` through and
+/-- The table `s8` as the code built it before the repair (`4-(bits%5)`, one bit short) let `a2b(b"ac")` through and
     reads it as `b"\x00"`, whose encoding is `b"aa"`; with `5-(bits%5)`
     (`fixes/C38-base32-trailing-bits.diff`) it is rejected. -/
 theorem base32_asis_counterexample :
@@ -254,7 +257,7 @@ example : Base62.a2bStrict [48, 48, 48, 48] = none ∧ Base62.a2bStrict [122, 12
 theorem base62_lengths (n : Nat) : Base62.numOctets (Base62.numChars n) = n :=
   Base62.numOctets_numChars n
 
-/-- `a2b` as it is validates nothing: `b"!!!!"` (no alphabet character, impossible length) is read as
+/-- `a2b` as it was before the repair (`Base62.a2b`, no re-encode check) validated nothing: `b"!!!!"` (no alphabet character, impossible length) is read as
     `f99b`, and `b"zz"` (value 3843 does not fit one byte) as `03`; the checked decoder rejects both. -/
 theorem base62_asis_counterexample :
     Base62.a2b [33, 33, 33, 33] = [249, 155] ∧ Base62.b2a [249, 155] ≠ [33, 33, 33, 33] ∧
@@ -329,7 +332,8 @@ theorem ueb_canonical_pack (x : Bytes) (d : Ueb.Dict) (h : Ueb.unpack Ueb.strict
 example : Ueb.sortDict [([99, 110], Ueb.Val.bytes [120]), ([115], .bytes [])]
     = [([99, 110], .bytes [120]), ([115], .bytes [])] := by decide
 
-/-- `unpack_extension` as it is (lengths and integer values through `int()`, repeated keys overwrite):
+/-- `unpack_extension` as it was before the repair (lengths and integer values through `int()`, repeated keys
+    overwrite):
     `size:02:12,` and `size:2: 7,` are read as 12 and 7, `size:1:5,size:1:6,` as 6, and a negative
     length indexes from the end (`k:-5:XY,:0:,`).  With `fixes/C38-ueb-strict-unpack.diff` all four are
     rejected. -/
